@@ -1,4 +1,5 @@
 import MetapypeModel.Model.Normalize
+import MetapypeModel.Lemmas.Words
 /-
   C20 — whitespace normalisation is idempotent and structure-preserving (text part).
   For every string (list of Unicode scalar values), by induction on the character list.
@@ -356,6 +357,22 @@ theorem C20_no_space_run (s : List Char) (pre post : List Char) : normalizeText 
   unfold normalizeText at h
   rw [h, hasDbl_of_infix] at h1
   cases h1
+
+/-- normalisation keeps the words and their order: the maximal runs of non-white-space characters (Python's
+    `str.split()`) of the result are those of the input, in the same order -/
+theorem C20_words (s : List Char) : wsWords (normalizeText s) = wsWords s := wsWords_normalizeText s
+
+/-- … and nothing but white space is lost or added: the non-white-space characters are the same, in order -/
+theorem C20_nonspace_chars (s : List Char) :
+    (normalizeText s).filter (fun c => !pyIsSpace c) = s.filter (fun c => !pyIsSpace c) := by
+  have h1 := wsW_flatten (normalizeText s) []
+  have h2 := wsW_flatten s []
+  simp only [List.nil_append] at h1 h2
+  rw [← h1, ← h2]
+  exact congrArg List.flatten (C20_words s)
+
+/-- `wsWords` is the intended notion (a kernel-evaluated instance) -/
+example : wsWords "  alpha\tbeta \u00a0 gamma\n".toList = ["alpha".toList, "beta".toList, "gamma".toList] := by decide
 
 /-- kernel-evaluated instances (tests, not the unbounded claim) -/
 example : normalizeText "  a  b \t c\n ".toList = "a b c".toList := by decide
